@@ -236,14 +236,11 @@ class Output(BaseOutput):
         self.nc.variables["time"][self.local_record_count] = self.timer.nctime()
 
         if self.layout == "dense":
-            # Fill out state.alive, False for unborn particles
-            has_value = np.full(len(state), False)
-            has_value[: len(state)] = state.alive
+            # Write complete rows: living particles at index pid, fill value elsewhere
+            alive = state.alive
+            pids = state.pid[alive]
             for var in self.instance_variables:
-                # values = getattr(state, var)
-                self.nc.variables[var][self.local_record_count, has_value] = getattr(
-                    state, var
-                )[state.alive]
+                self.write_dense_row(var, state.npid, pids, getattr(state, var)[alive])
         elif self.layout == "sparse":
             count = len(state)  # Present number of particles
             start = self.local_instance_count
@@ -256,8 +253,8 @@ class Output(BaseOutput):
         if self.lonlat:
             lon, lat = self.xy2ll(state.X, state.Y)
             if self.layout == "dense":
-                self.nc.variables["lon"][self.local_record_count, :] = lon
-                self.nc.variables["lat"][self.local_record_count, :] = lat
+                self.write_dense_row("lon", state.npid, pids, lon[alive])
+                self.write_dense_row("lat", state.npid, pids, lat[alive])
             elif self.layout == "sparse":
                 self.nc.variables["lon"][start:end] = lon
                 self.nc.variables["lat"][start:end] = lat
@@ -283,6 +280,17 @@ class Output(BaseOutput):
                 self.nc = self.create_netcdf()
                 self.local_instance_count = 0
                 self.local_record_count = 0
+
+    def write_dense_row(
+        self, var: str, npid: int, pids: np.ndarray, values: np.ndarray
+    ) -> None:
+        """Write values at index pid in the present record, fill value elsewhere"""
+        if npid == 0:
+            return
+        ncvar = self.nc.variables[var]
+        row = np.ma.masked_all(npid, dtype=ncvar.dtype)
+        row[pids] = values
+        ncvar[self.local_record_count, :npid] = row
 
     def write_particle_variables(self, state: State) -> None:
         """Write all output particle variables
